@@ -781,19 +781,25 @@ Fixpoint chain_dom (c : howcfg) (s : st) (steps : list jstep) : bool :=
       end
   end.
 
+Definition all_keep_inv (steps : list jstep) : bool := forallb (fun x => keeps_inv (j_on x) (j_how x)) steps.
+
 Theorem join_chain_ok c : cfg_how_ok c = true -> cfg_none_ok c = true ->
   forall steps s, inv s = true -> chain_dom c s steps = true ->
-  exists s', m_chain c s steps = Some s' /\ sp_chain (sp_of s) steps = Some (sp_of s').
+  exists s', m_chain c s steps = Some s' /\ sp_chain (sp_of s) steps = Some (sp_of s')
+             /\ (all_keep_inv steps = true -> inv s' = true).
 Proof.
   intros Hc Hn. induction steps as [|x r IH]; intros s Hinv Hd.
-  - exists s. split; reflexivity.
+  - exists s. repeat split; auto.
   - simpl in Hd. apply andb_true_iff in Hd. destruct Hd as [Hx Hr].
     destruct (join_step_ok c s _ _ _ _ _ _ Hc Hn Hinv Hx) as [s1 [M1 [S1 I1]]].
     simpl. rewrite M1, S1.
     destruct r as [|y r'].
-    + exists s1. split; reflexivity.
+    + exists s1. repeat split; try reflexivity. intro Hk. apply I1.
+      simpl in Hk. apply andb_true_iff in Hk. tauto.
     + apply andb_true_iff in Hr. destruct Hr as [Hk Hr]. rewrite M1 in Hr.
-      apply (IH s1 (I1 Hk) Hr).
+      destruct (IH s1 (I1 Hk) Hr) as [s' [M [S I]]].
+      exists s'. repeat split; auto. intro Hall. apply I.
+      unfold all_keep_inv in *. simpl in Hall. apply andb_true_iff in Hall. tauto.
 Qed.
 
 (** hence the column list AND the rows of the whole chain are PySpark's, whatever the tables contain *)
@@ -805,7 +811,7 @@ Corollary run_chain_ok c : cfg_how_ok c = true -> cfg_none_ok c = true ->
 Proof.
   intros Hc Hn L lbase lctes steps Hnd Hd.
   assert (Hinv : inv (init_st L lbase lctes) = true).
-  { unfold inv, init_st. simpl. rewrite andb_true_r, andb_true_r.
+  { clear Hd. unfold inv, init_st. simpl. rewrite andb_true_r, andb_true_r.
     unfold indexed. simpl. unfold init_sel.
     assert (G : forall l seen, nodupb l = true -> (forall n, In n l -> In n (cols L)) ->
                 (forall n, In n l -> count_str n seen = O) ->
@@ -819,7 +825,7 @@ Proof.
       - apply String.eqb_eq in E. subst. assert (smem m l = true) by (apply smem_In; exact Hm'). congruence.
       - simpl. apply Hs. right; exact Hm'. }
     apply G; auto. }
-  destruct (join_chain_ok c Hc Hn steps _ Hinv Hd) as [s' [M S]].
+  destruct (join_chain_ok c Hc Hn steps _ Hinv Hd) as [s' [M [S _]]].
   unfold m_run, sp_run. rewrite M. change (init_sp L lbase) with (sp_of (init_st L lbase lctes)). rewrite S.
   simpl. symmetry. apply eval_sp_of.
 Qed.
@@ -876,4 +882,363 @@ Proof.
   cbn [m_fin] in Hfr. unfold eval_st in Hfr. rewrite T, W, J in Hfr. cbn [init_st s_tabs s_joins s_where app] in Hfr.
   exists k, cond, (s_sel s').
   destruct (single_join_rows _ _ _ _ _ _ Hfr) as [H1 H2]. rewrite !map_length in H2. split; assumption.
+Qed.
+
+(** * select / where after the joins *)
+Lemma canon_named_single' tcs k : forall sel seen,
+  canonb tcs seen sel = true -> count_str k seen = O -> count_str k (map snd sel) = 1%nat ->
+  exists i, hd_error (tabs_with tcs k) = Some i /\ named k sel = [(ECol (qn i k), k)].
+Proof.
+  induction sel as [|[e n] sel IH]; intros seen Hc Hs H1; simpl in *; [discriminate|].
+  destruct (nth_error (tabs_with tcs n) (count_str n seen)) as [i'|] eqn:E; [|discriminate].
+  apply andb_true_iff in Hc. destruct Hc as [He Hr]. apply expr_eqb_eq in He. subst e.
+  unfold named. simpl. destruct (String.eqb n k) eqn:Enk.
+  - apply String.eqb_eq in Enk. subst n. rewrite Hs in E. exists i'. split.
+    + destruct (tabs_with tcs k); simpl in *; [discriminate | exact E].
+    + f_equal. apply named_none. lia.
+  - apply (IH (n :: seen)); auto. simpl. rewrite Enk. simpl. exact Hs.
+Qed.
+
+Definition fin_ref_dom (s : st) (r : ref) : bool :=
+  let hj := negb (Nat.eqb (List.length (s_tabs s)) 1) in
+  match r with
+  | RName n => Nat.eqb (count_str n (map snd (s_sel s))) 1
+  | RDf t b _ _ => ref_valid (s_tabs s) (s_bases s) (s_sel s) r
+                   && negb (hj && first_two_same_branch (s_ctes s)) && is_tab (denotes (s_ctes s) (carries_id b)) t
+  | RAlias t sq _ => ref_valid (s_tabs s) (s_bases s) (s_sel s) r && is_tab (denotes (s_ctes s) (carries_seq sq)) t
+  end.
+
+Lemma after_uexpr_ok s e :
+  canonb (indexed (s_tabs s)) [] (s_sel s) = true ->
+  uexpr_dom (fin_ref_dom s) e = true ->
+  exists e',
+    resolve_uexpr (norm_after_ref (s_ctes s) (negb (Nat.eqb (List.length (s_tabs s)) 1)) (List.length (s_tabs s))
+                                  (indexed (s_tabs s))) e = Some e'
+    /\ sp_uexpr (ref_valid (s_tabs s) (s_bases s) (s_sel s)) (s_sel s) e = Some e'.
+Proof.
+  intro Hc. induction e as [r|v|o a IHa b IHb|a IHa|a IHa]; simpl; intro H.
+  - destruct r as [n|t b uo n|t sq n]; simpl in H.
+    + apply Nat.eqb_eq in H.
+      destruct (canon_named_single' _ n _ [] Hc eq_refl H) as [i [Hh Hn]].
+      unfold norm_after_ref. simpl.
+      assert (Hp : pick (tabs_with (indexed (s_tabs s)) n) 0 = Some i).
+      { apply pick_nth. destruct (tabs_with (indexed (s_tabs s)) n); simpl in *; [discriminate | exact Hh]. }
+      rewrite Hp. exists (ECol (qn i n)). rewrite Hn. split; reflexivity.
+    + apply andb_true_iff in H. destruct H as [H H3].
+      apply andb_true_iff in H. destruct H as [Hv H2]. apply negb_true_iff in H2.
+      unfold norm_after_ref, norm_ref. rewrite H2.
+      change (fun c => Nat.eqb (cm_branch c) b || Nat.eqb (cm_seq c) b) with (carries_id b).
+      unfold denotes in H3. destruct (find (carries_id b) (rev (s_ctes s))) as [c0|]; simpl in H3; [|discriminate].
+      unfold cte_table. destruct (cm_tab c0) as [t'|]; [|discriminate]. apply Nat.eqb_eq in H3. subst t'.
+      exists (ECol (qn t n)). split; [reflexivity|]. cbn [ref_valid]. rewrite Hv. reflexivity.
+    + apply andb_true_iff in H. destruct H as [Hv H3].
+      unfold norm_after_ref, norm_ref.
+      change (fun c => nat_mem (cm_seq c) sq) with (carries_seq sq).
+      unfold denotes in H3. destruct (find (carries_seq sq) (rev (s_ctes s))) as [c0|]; simpl in H3; [|discriminate].
+      unfold cte_table. destruct (cm_tab c0) as [t'|]; [|discriminate]. apply Nat.eqb_eq in H3. subst t'.
+      exists (ECol (qn t n)). split; [reflexivity|]. cbn [ref_valid]. rewrite Hv. reflexivity.
+  - eexists; split; reflexivity.
+  - apply andb_true_iff in H. destruct H as [H1 H2].
+    destruct (IHa H1) as [x [X1 X2]]. destruct (IHb H2) as [y [Y1 Y2]].
+    rewrite X1, X2, Y1, Y2. eexists; split; reflexivity.
+  - destruct (IHa H) as [x [X1 X2]]. rewrite X1, X2. eexists; split; reflexivity.
+  - destruct (IHa H) as [x [X1 X2]]. rewrite X1, X2. eexists; split; reflexivity.
+Qed.
+
+(** bare names selected on their own must be pairwise different (the implementation counts their occurrences) *)
+Definition bare_names (items : list (uexpr * string)) : list string :=
+  flat_map (fun it => match fst it with UCol (RName n) => [n] | _ => [] end) items.
+
+Definition fin_dom (s : st) (f : fin) : bool :=
+  match f with
+  | FNone => true
+  | FWhere e => uexpr_dom (fin_ref_dom s) e
+  | FSelect items => forallb (fun it => uexpr_dom (fin_ref_dom s) (fst it)) items && nodupb (bare_names items)
+  end.
+
+Lemma select_items_ok s :
+  canonb (indexed (s_tabs s)) [] (s_sel s) = true ->
+  let f := norm_after_ref (s_ctes s) (negb (Nat.eqb (List.length (s_tabs s)) 1)) (List.length (s_tabs s)) (indexed (s_tabs s)) in
+  let valid := ref_valid (s_tabs s) (s_bases s) (s_sel s) in
+  forall items seen,
+    forallb (fun it => uexpr_dom (fin_ref_dom s) (fst it)) items = true ->
+    nodupb (bare_names items) = true ->
+    (forall n, In n (bare_names items) -> count_str n seen = O) ->
+    exists its out,
+      map_opt (m_item f) items = Some its
+      /\ map_opt (sp_item valid (s_sel s)) items = Some out
+      /\ combine (map fst (resolve_items (indexed (s_tabs s)) seen its)) (map snd items) = out.
+Proof.
+  intros Hc f valid. induction items as [|[e o] items IH]; intros seen Hd Hn Hs.
+  - exists [], []. repeat split; reflexivity.
+  - simpl in Hd. apply andb_true_iff in Hd. destruct Hd as [He Hd].
+    destruct (after_uexpr_ok s e Hc He) as [e' [M S]]. fold f in M. fold valid in S.
+    assert (Hsp : sp_item valid (s_sel s) (e, o) = Some (e', o)) by (unfold sp_item; simpl; rewrite S; reflexivity).
+    destruct (match e with UCol (RName _) => true | _ => false end) eqn:Ebare.
+    + (* a bare name on its own *)
+      destruct e as [[n|t b0 uo n|t sq n]|v|op a b|a|a]; try discriminate.
+      simpl in Hn. apply andb_true_iff in Hn. destruct Hn as [Hn1 Hn2]. apply negb_true_iff in Hn1.
+      destruct (IH (n :: seen) Hd Hn2) as [its [out [I1 [I2 I3]]]].
+      { intros m Hm. simpl. destruct (String.eqb n m) eqn:E.
+        - apply String.eqb_eq in E. subst. assert (smem m (bare_names items) = true) by (apply smem_In; exact Hm). congruence.
+        - simpl. apply Hs. simpl. right. exact Hm. }
+      exists (IName n :: its), ((e', o) :: out).
+      cbn [map_opt]. rewrite Hsp, I1, I2. unfold m_item at 1. cbn [fst].
+      split; [reflexivity|]. split; [reflexivity|].
+      cbn [resolve_items map fst snd combine]. f_equal; [|exact I3].
+      unfold resolve_name. rewrite (Hs n (or_introl eq_refl)).
+      simpl in M. unfold f, norm_after_ref in M. simpl in M.
+      destruct (pick (tabs_with (indexed (s_tabs s)) n) 0) as [i|]; [|discriminate].
+      inversion M. reflexivity.
+    + assert (Hm : m_item f (e, o) = Some (IExpr e' o)).
+      { unfold m_item. cbn [fst snd]. destruct e as [[n|t b0 uo n|t sq n]|v|op a b|a|a]; try discriminate; rewrite M; reflexivity. }
+      assert (Hb : bare_names ((e, o) :: items) = bare_names items).
+      { unfold bare_names. cbn [flat_map fst]. destruct e as [[n|t b0 uo n|t sq n]|v|op a b|a|a]; try discriminate; reflexivity. }
+      rewrite Hb in Hn, Hs.
+      destruct (IH seen Hd Hn Hs) as [its [out [I1 [I2 I3]]]].
+      exists (IExpr e' o :: its), ((e', o) :: out).
+      cbn [map_opt]. rewrite Hsp, Hm, I1, I2.
+      repeat split; try reflexivity.
+      cbn [resolve_items map fst snd combine]. f_equal. exact I3.
+Qed.
+
+Theorem fin_ok s f :
+  inv s = true -> fin_dom s f = true ->
+  exists s', m_fin s f = Some s' /\ sp_fin (sp_of s) f = Some (sp_of s').
+Proof.
+  intros Hinv Hd. unfold inv in Hinv.
+  apply andb_true_iff in Hinv. destruct Hinv as [Hinv Hwh].
+  apply andb_true_iff in Hinv. destruct Hinv as [Hcanon Hfr]. apply negb_true_iff in Hfr.
+  destruct f as [|e|items]; simpl in *.
+  - exists s. split; reflexivity.
+  - destruct (after_uexpr_ok s e Hcanon Hd) as [e' [M S]].
+    unfold m_where, sp_where, sp_of. simpl. unfold order_of. rewrite Hfr, M, S. eexists. split; reflexivity.
+  - apply andb_true_iff in Hd. destruct Hd as [Hd Hn].
+    destruct (select_items_ok s Hcanon items [] Hd Hn (fun _ _ => eq_refl)) as [its [out [I1 [I2 I3]]]].
+    unfold m_select, sp_select, sp_of. cbn [s_tabs s_bases s_joins s_ctes s_first_right s_sel s_where p_tabs p_bases p_joins p_out p_where].
+    unfold order_of. rewrite Hfr, I1, I2, I3. eexists. split; reflexivity.
+Qed.
+
+(** * whole programs: a chain of joins followed by an optional select / where *)
+Lemma inv_init L lbase lctes : nodupb (cols L) = true -> inv (init_st L lbase lctes) = true.
+Proof.
+  intro Hnd. unfold inv, init_st. simpl. rewrite andb_true_r, andb_true_r.
+  unfold indexed. simpl. unfold init_sel.
+  assert (G : forall l seen, nodupb l = true -> (forall n, In n l -> In n (cols L)) ->
+              (forall n, In n l -> count_str n seen = O) ->
+              canonb [(0%nat, cols L)] seen (map (fun n => (ECol (qn 0 n), n)) l) = true).
+  { induction l as [|n l IHl]; intros seen Hl Hin Hs; simpl; [reflexivity|].
+    simpl in Hl. apply andb_true_iff in Hl. destruct Hl as [Hl1 Hl2]. apply negb_true_iff in Hl1.
+    rewrite tabs_with_one. assert (Hm : mem n (cols L) = true) by (apply smem_In, Hin; left; reflexivity).
+    rewrite Hm, (Hs n (or_introl eq_refl)). simpl. rewrite String.eqb_refl. simpl.
+    apply IHl; [exact Hl2 | intros; apply Hin; right; assumption |].
+    intros m Hm'. simpl. destruct (String.eqb n m) eqn:E.
+    - apply String.eqb_eq in E. subst. assert (smem m l = true) by (apply smem_In; exact Hm'). congruence.
+    - simpl. apply Hs. right; exact Hm'. }
+  apply G; auto.
+Qed.
+
+Definition prog_dom (c : howcfg) (L : frame) (lbase : nat) (lctes : list cmeta) (steps : list jstep) (f : fin) : bool :=
+  nodupb (cols L) && chain_dom c (init_st L lbase lctes) steps &&
+  match f with
+  | FNone => true
+  | _ => all_keep_inv steps &&
+         match m_chain c (init_st L lbase lctes) steps with Some s => fin_dom s f | None => false end
+  end.
+
+Theorem run_ok c : cfg_how_ok c = true -> cfg_none_ok c = true ->
+  forall L lbase lctes steps f,
+    prog_dom c L lbase lctes steps f = true ->
+    m_run c L lbase lctes steps f = sp_run L lbase steps f.
+Proof.
+  intros Hc Hn L lbase lctes steps f Hd. unfold prog_dom in Hd.
+  apply andb_true_iff in Hd. destruct Hd as [Hd Hf].
+  apply andb_true_iff in Hd. destruct Hd as [Hnd Hd].
+  destruct (join_chain_ok c Hc Hn steps _ (inv_init L lbase lctes Hnd) Hd) as [s' [M [S I]]].
+  unfold m_run, sp_run. rewrite M. change (init_sp L lbase) with (sp_of (init_st L lbase lctes)). rewrite S.
+  destruct f as [|e|items].
+  - simpl. symmetry. apply eval_sp_of.
+  - apply andb_true_iff in Hf. destruct Hf as [Hk Hf]. rewrite M in Hf.
+    destruct (fin_ok s' (FWhere e) (I Hk) Hf) as [s2 [M2 S2]]. rewrite M2, S2. symmetry. apply eval_sp_of.
+  - apply andb_true_iff in Hf. destruct Hf as [Hk Hf]. rewrite M in Hf.
+    destruct (fin_ok s' (FSelect items) (I Hk) Hf) as [s2 [M2 S2]]. rewrite M2, S2. symmetry. apply eval_sp_of.
+Qed.
+
+(** * right outer join (as the first join): right as long as no other column name occurs on both sides.
+    The resolution runs right-to-left; the key then is the right side's (as in PySpark), and a name that only one table has
+    can only go to that table. *)
+Lemma pick_single i p : pick [i] p = Some i.
+Proof. unfold pick. simpl. rewrite Nat.min_0_r. reflexivity. Qed.
+
+Lemma resolve_single tcs (g : string -> nat) : forall names seen,
+  (forall n, In n names -> tabs_with tcs n = [g n]) ->
+  resolve_items tcs seen (map IName names) = map (fun n => (ECol (qn (g n) n), n)) names.
+Proof.
+  induction names as [|n names IH]; intros seen H; simpl; [reflexivity|].
+  unfold resolve_name. rewrite (H n (or_introl eq_refl)), pick_single. f_equal.
+  apply IH. intros m Hm. apply H. right; exact Hm.
+Qed.
+
+Lemma map_ext_in' {A B} (f g : A -> B) l : (forall x, In x l -> f x = g x) -> map f l = map g l.
+Proof. apply map_ext_in. Qed.
+
+Definition right_dom (L : frame) (lbase : nat) (lctes : list cmeta) (x : jstep) : bool :=
+  let R := j_right x in
+  let out' := init_sel (cols L) ++ map (fun n => (ECol (qn 1 n), n)) (cols R) in
+  smem (j_how x) documented && jkind_eqb (kind_of_how (j_how x)) JRight && nodupb (cols L) && nodupb (cols R) &&
+  match j_on x with
+  | OnNone => false
+  | OnNames ks =>
+      negb (match ks with [] => true | _ => false end) && nodupb ks
+      && forallb (fun k => mem k (cols L) && mem k (cols R)) ks
+      && forallb (fun n => negb (mem n (cols L))) (filter (fun n => negb (smem n ks)) (cols R))
+  | OnExprs es =>
+      negb (match es with [] => true | _ => false end)
+      && forallb (uexpr_dom (fun r => ref_dom lctes (j_octes x) false (j_same_branch x) r
+                                      && ref_valid [L; R] [lbase; j_base x] out' r)) es
+      && forallb (fun n => negb (mem n (cols L))) (cols R)
+  end.
+
+Lemma count_one_of_nodup n l : nodupb l = true -> mem n l = true -> count_str n l = 1%nat.
+Proof. intros H1 H2. rewrite (count_str_nodup n l H1). rewrite <- mem_smem. rewrite H2. reflexivity. Qed.
+
+Lemma named_init_sel k l : nodupb l = true -> mem k l = true ->
+  named k (init_sel l) = [(ECol (qn 0 k), k)].
+Proof.
+  unfold named, init_sel. induction l as [|x l IH]; simpl; intros Hn Hm; [discriminate|].
+  apply andb_true_iff in Hn. destruct Hn as [Hx Hn]. apply negb_true_iff in Hx.
+  destruct (String.eqb x k) eqn:E.
+  - apply String.eqb_eq in E. subst x. f_equal.
+    assert (G : forall l', smem k l' = false -> filter (fun it : expr * string => String.eqb (snd it) k) (map (fun n => (ECol (qn 0 n), n)) l') = []).
+    { induction l' as [|y l' IHl]; simpl; intro Hs; [reflexivity|].
+      apply orb_false_iff in Hs. destruct Hs as [Hy Hs]. rewrite String.eqb_sym in Hy. rewrite Hy. auto. }
+    apply G. exact Hx.
+  - apply IH; [exact Hn|]. rewrite String.eqb_sym in E. simpl in Hm. unfold mem in *. simpl in Hm. rewrite E in Hm. exact Hm.
+Qed.
+
+Theorem right_join_first_ok c : cfg_how_ok c = true ->
+  forall L lbase lctes x,
+    right_dom L lbase lctes x = true ->
+    m_run c L lbase lctes [x] FNone = sp_run L lbase [x] FNone.
+Proof.
+  intros Hcfg L lbase lctes [R rbase octes on how sb] Hd. unfold right_dom in Hd. cbn [j_right j_how j_on j_octes j_same_branch j_base] in Hd.
+  apply andb_true_iff in Hd. destruct Hd as [Hd Hon].
+  apply andb_true_iff in Hd. destruct Hd as [Hd HndR].
+  apply andb_true_iff in Hd. destruct Hd as [Hd HndL].
+  apply andb_true_iff in Hd. destruct Hd as [Hdoc Hk].
+  destruct (documented_kind c how Hcfg Hdoc) as [k0 [Hk0 Hflags]].
+  assert (Hkind : kind_of_how how = match k0 with JCross => JInner | _ => k0 end).
+  { unfold kind_of_how. rewrite Hk0. destruct k0; reflexivity. }
+  apply flags_for_spec in Hflags. rewrite <- Hkind in Hflags. apply jkind_eqb_eq in Hk. rewrite Hk in Hflags.
+  destruct Hflags as [Fk [Flo [Fcr [Ffu Fri]]]]. cbn [is_semi_anti jkind_eqb] in Flo, Ffu, Fri.
+  assert (Hk0' : k0 = JRight) by (rewrite Hkind in Hk; destruct k0; try discriminate; reflexivity).
+  set (lc := cols L) in *. set (rc := cols R) in *.
+  assert (Hord : order_of true [L; R] = [(1%nat, rc); (0%nat, lc)]) by reflexivity.
+  assert (Hidx : indexed [L] = [(0%nat, lc)]) by reflexivity.
+  unfold m_run, sp_run. cbn [m_chain sp_chain j_right j_how j_on j_octes j_same_branch j_base].
+  destruct on as [|ks|es]; [discriminate| |].
+  - (* names *)
+    apply andb_true_iff in Hon. destruct Hon as [Hon Hcol].
+    apply andb_true_iff in Hon. destruct Hon as [Hon Hkeys].
+    apply andb_true_iff in Hon. destruct Hon as [Hne Hndk].
+    rewrite forallb_forall in Hkeys, Hcol.
+    assert (KL : forall k, In k ks -> mem k lc = true) by (intros k H; destruct (proj1 (andb_true_iff _ _) (Hkeys k H)); assumption).
+    assert (KR : forall k, In k ks -> mem k rc = true) by (intros k H; destruct (proj1 (andb_true_iff _ _) (Hkeys k H)); assumption).
+    (* the key pairs *)
+    assert (P1 : map_opt (fun k => option_map (fun i => (i, k)) (first_tab_with [(0%nat, lc)] k)) ks = Some (map (fun k => (0%nat, k)) ks)).
+    { clear Hne Hndk Hkeys Hcol. induction ks as [|k ks IH]; [reflexivity|]. simpl.
+      unfold first_tab_with at 1. rewrite tabs_with_one, (KL k (or_introl eq_refl)). simpl.
+      rewrite IH; [reflexivity | intros; apply KL; right; assumption | intros; apply KR; right; assumption]. }
+    assert (P4 : map_opt (fun key => match named key (init_sel lc), count_str key rc with
+                                     | it :: _, 1%nat => Some (fst it, key) | _, _ => None end) ks
+                 = Some (map (fun k => (ECol (qn 0 k), k)) ks)).
+    { clear Hne Hndk Hkeys Hcol P1. induction ks as [|k ks IH]; [reflexivity|]. simpl.
+      rewrite (named_init_sel k lc HndL (KL k (or_introl eq_refl))).
+      rewrite (count_one_of_nodup k rc HndR (KR k (or_introl eq_refl))). simpl.
+      rewrite IH; [reflexivity | intros; apply KL; right; assumption | intros; apply KR; right; assumption]. }
+    (* model *)
+    unfold m_join. cbn match. rewrite Fk, Fcr, Flo, Ffu, Fri.
+    cbn [init_st s_tabs s_sel s_ctes s_joins s_where s_bases s_first_right List.length Nat.eqb negb app].
+    change (indexed [L]) with [(0%nat, lc)]. rewrite P1. rewrite Hord.
+    replace (map (fun p : nat * string => IName (snd p)) (map (fun k => (0%nat, k)) ks)) with (map IName ks)
+      by (rewrite map_map; reflexivity).
+    rewrite resolve_items_app.
+    (* spec *)
+    unfold sp_join. cbn [init_sp p_tabs p_out p_joins p_where p_bases List.length]. rewrite Hk0, Hk0'. fold lc rc.
+    rewrite P4. cbn [is_semi_anti].
+    rewrite (drop_keys_filter ks (init_sel lc) Hndk) by (intros k Hk'; unfold init_sel; rewrite names_rout; apply count_one_of_nodup; [exact HndL | apply KL; exact Hk']).
+    rewrite (drop_keys_filter ks (map (fun n => (ECol (qn 1 n), n)) rc) Hndk) by (intros k Hk'; rewrite names_rout; apply count_one_of_nodup; [exact HndR | apply KR; exact Hk']).
+    (* the three parts of the select list *)
+    assert (S1 : resolve_items [(1%nat, rc); (0%nat, lc)] [] (map IName ks) = map (fun k => (ECol (qn 1 k), k)) ks).
+    { assert (G : forall l seen, nodupb l = true -> (forall k, In k l -> In k ks) -> (forall k, In k l -> count_str k seen = O) ->
+                  resolve_items [(1%nat, rc); (0%nat, lc)] seen (map IName l) = map (fun k => (ECol (qn 1 k), k)) l).
+      { induction l as [|k l IHl]; intros seen Hl Hin Hs; simpl; [reflexivity|].
+        simpl in Hl. apply andb_true_iff in Hl. destruct Hl as [Hl1 Hl2]. apply negb_true_iff in Hl1.
+        unfold resolve_name, tabs_with. simpl. rewrite (KR k (Hin k (or_introl eq_refl))), (KL k (Hin k (or_introl eq_refl))).
+        simpl. rewrite (Hs k (or_introl eq_refl)). simpl. f_equal.
+        apply IHl; [exact Hl2 | intros; apply Hin; right; assumption|].
+        intros m Hm. simpl. destruct (String.eqb k m) eqn:E.
+        - apply String.eqb_eq in E. subst. assert (smem m l = true) by (apply smem_In; exact Hm). congruence.
+        - simpl. apply Hs. right; exact Hm. }
+      apply G; auto. }
+    rewrite S1.
+    set (g := fun n : string => if mem n lc then 0%nat else 1%nat).
+    assert (S2 : forall seen, resolve_items [(1%nat, rc); (0%nat, lc)] seen
+                   (map IName (filter (fun n => negb (smem n ks)) (map snd (init_sel lc) ++ rc)))
+                 = filter (fun it : expr * string => negb (smem (snd it) ks)) (init_sel lc)
+                   ++ filter (fun it : expr * string => negb (smem (snd it) ks)) (map (fun n => (ECol (qn 1 n), n)) rc)).
+    { intro seen. rewrite (resolve_single _ g).
+      - unfold init_sel. rewrite names_rout, filter_app, map_app. f_equal.
+        + rewrite <- nonkey_map. apply map_ext_in. intros n Hn. apply filter_In in Hn. destruct Hn as [Hn _].
+          unfold g. assert (Hm : mem n lc = true) by (apply smem_In; exact Hn). rewrite Hm. reflexivity.
+        + rewrite <- nonkey_map. apply map_ext_in. intros n Hn.
+          assert (Hc := Hcol n Hn). apply negb_true_iff in Hc. unfold g. rewrite Hc. reflexivity.
+      - intros n Hn. apply filter_In in Hn. destruct Hn as [Hn Hnk]. apply negb_true_iff in Hnk.
+        unfold init_sel in Hn. rewrite names_rout in Hn. unfold tabs_with, g. simpl.
+        apply in_app_or in Hn. destruct Hn as [Hn|Hn].
+        + assert (Hm : mem n lc = true) by (apply smem_In; exact Hn). rewrite Hm.
+          destruct (mem n rc) eqn:Er; [|reflexivity].
+          (* n in both sides and not a key: excluded *)
+          assert (Hin : In n (filter (fun n0 => negb (smem n0 ks)) rc)).
+          { apply filter_In. split; [apply smem_In; exact Er | rewrite Hnk; reflexivity]. }
+          assert (Hc := Hcol n Hin). rewrite Hm in Hc. discriminate.
+        + assert (Hin : In n (filter (fun n0 => negb (smem n0 ks)) rc)).
+          { apply filter_In. split; [exact Hn | rewrite Hnk; reflexivity]. }
+          assert (Hc := Hcol n Hin). apply negb_true_iff in Hc. rewrite Hc.
+          assert (Hm : mem n rc = true) by (apply smem_In; exact Hn). rewrite Hm. reflexivity. }
+    rewrite S2.
+    replace (map (key_eq 1) (map (fun k : string => (0%nat, k)) ks))
+      with (map (fun q : expr * string => EBin Eq (fst q) (ECol (qn 1 (snd q)))) (map (fun k : string => (ECol (qn 0 k), k)) ks))
+      by (rewrite !map_map; reflexivity).
+    rewrite (map_map (fun k : string => (ECol (qn 0 k), k))). cbn [fst snd app m_fin sp_fin]. unfold eval_st, eval_sp. reflexivity.
+  - (* expressions *)
+    apply andb_true_iff in Hon. destruct Hon as [Hon Hcol].
+    apply andb_true_iff in Hon. destruct Hon as [Hne Hrefs].
+    rewrite forallb_forall in Hrefs, Hcol.
+    set (out' := init_sel lc ++ map (fun n => (ECol (qn 1 n), n)) rc) in *.
+    set (valid := ref_valid [L; R] [lbase; rbase] out') in *.
+    assert (Hes :
+      map_opt (resolve_uexpr (norm_on_ref lctes octes false 1 sb (indexed [L; R]))) es = map_opt (sp_uexpr valid out') es).
+    { apply map_opt_ext_in. intros e He. apply on_uexpr_ok. apply Hrefs. exact He. }
+    unfold m_join. cbn match. rewrite Fk, Fcr, Flo, Fri.
+    cbn [init_st s_tabs s_sel s_ctes s_joins s_where s_bases s_first_right List.length Nat.eqb negb app].
+    rewrite Hes.
+    unfold sp_join. cbn [init_sp p_tabs p_out p_joins p_where p_bases List.length app]. rewrite Hk0, Hk0'. fold lc rc. fold out'. fold valid.
+    destruct (map_opt (sp_uexpr valid out') es) as [es'|]; [|reflexivity].
+    cbn [is_semi_anti]. rewrite Hord.
+    set (g := fun n : string => if mem n lc then 0%nat else 1%nat).
+    rewrite (resolve_single _ g).
+    + unfold init_sel. rewrite names_rout, map_app.
+      replace (map (fun n : string => (ECol (qn (g n) n), n)) lc) with (map (fun n => (ECol (qn 0 n), n)) lc).
+      2:{ apply map_ext_in. intros n Hn. unfold g. assert (Hm : mem n lc = true) by (apply smem_In; exact Hn). rewrite Hm. reflexivity. }
+      replace (map (fun n : string => (ECol (qn (g n) n), n)) rc) with (map (fun n => (ECol (qn 1 n), n)) rc).
+      2:{ apply map_ext_in. intros n Hn. unfold g. assert (Hc := Hcol n Hn). apply negb_true_iff in Hc. rewrite Hc. reflexivity. }
+      cbn [m_fin sp_fin]. unfold eval_st, eval_sp. reflexivity.
+    + intros n Hn. unfold init_sel in Hn. rewrite names_rout in Hn. unfold tabs_with, g. simpl.
+      apply in_app_or in Hn. destruct Hn as [Hn|Hn].
+      * assert (Hm : mem n lc = true) by (apply smem_In; exact Hn). rewrite Hm.
+        destruct (mem n rc) eqn:Er; [|reflexivity].
+        assert (Hc := Hcol n (proj1 (smem_In n rc) Er)). rewrite Hm in Hc. discriminate.
+      * assert (Hc := Hcol n Hn). apply negb_true_iff in Hc. rewrite Hc.
+        assert (Hm : mem n rc = true) by (apply smem_In; exact Hn). rewrite Hm. reflexivity.
 Qed.
